@@ -52,7 +52,7 @@ Print Assumptions C14_read_prim_exact.
 
 (* 4. Sub-scopes expose exactly their declared window. *)
 Theorem C14_subscope_window : forall m s o l,
-  0 <= o -> 0 <= l -> o + l <= dlen s -> base s + o < USIZE ->
+  0 <= o -> 0 <= l -> o + l <= dlen s -> 0 <= base s -> base s + o < USIZE ->
   offset_length m s o l = Ok {| base := base s + o; data := take l (drop o (data s)) |}.
 Proof. exact offset_length_complete. Qed.
 Print Assumptions C14_subscope_window.
@@ -64,13 +64,17 @@ Print Assumptions C14_subscope_rejects.
 
 (* 5. Arrays and strided arrays: construction, indexed access, iteration, binary search. *)
 Theorem C14_array_construction : forall m t c n st a c',
-  cinv c -> bytes_ok (data (sc c)) = true -> base (sc c) + dlen (sc c) < USIZE ->
-  0 <= n -> 0 < ty_size t -> 0 <= st < USIZE -> n * st < USIZE ->
-  read_array_stride m t c n st = Ok (a, c') ->
-  window_ok a /\ data (a_sc a) = take (n * st) (drop (off c) (data (sc c)))
-  /\ off c' = off c + n * st /\ a_len a = n /\ a_stride a = st /\ a_ty a = t.
-Proof. exact read_array_stride_window. Qed.
+  cinv c -> 0 <= n -> 0 <= st -> 0 < ty_size t -> read_array_stride m t c n st = Ok (a, c') ->
+  cinv c' /\ ainv a /\ sinv (a_sc a) /\ sc c' = sc c /\ a_len a = n /\ a_stride a = st /\ a_ty a = t
+  /\ ty_size t <= st /\ n * st < USIZE /\ off c' = off c + n * st
+  /\ data (a_sc a) = take (n * st) (drop (off c) (data (sc c))).
+Proof. exact read_array_stride_inv. Qed.
 Print Assumptions C14_array_construction.
+
+Theorem C14_read_array_is_unit_stride : forall m t c n,
+  read_array m t c n = read_array_stride m t c n (ty_size t).
+Proof. exact read_array_is_stride. Qed.
+Print Assumptions C14_read_array_is_unit_stride.
 
 Theorem C14_array_get : forall m a i,
   window_ok a -> 0 <= i < a_len a -> arr_get m a i = Ok (Some (item a i)).
@@ -91,9 +95,20 @@ Theorem C14_binary_search : forall m a f,
 Proof. exact arr_binary_search_spec. Qed.
 Print Assumptions C14_binary_search.
 
+(* 6. Totality: on every reachable state every operation returns a value or an error; it never
+      panics (no failing unwrap, no arithmetic overflow in either build mode, fuel sufficient). *)
+Theorem C14_step_total : forall m st o, rinv st -> op_wf o -> defined (snd (rstep m st o)).
+Proof. exact rstep_total. Qed.
+Print Assumptions C14_step_total.
+
+Theorem C14_run_total : forall m ops st,
+  rinv st -> Forall op_wf ops -> Forall (fun r => defined (fst r)) (rrun m st ops).
+Proof. exact rrun_total. Qed.
+Print Assumptions C14_run_total.
+
 (* non-vacuity: a concrete buffer and program meet the hypotheses and exercise the conclusions *)
 Example C14_example_run :
   rrun Debug (rinit [1; 2; 3; 4; 5; 6; 7; 8; 9])
        [ORead PU16; OReadArrayStride [PU8] 2 3; OArrGet 1; OArrToVec; ORead PU16; OArrSearch 6]
-  = [(Ok [258], 2); (Ok [2], 8); (Ok [1; 6], 8); (Ok [3; 6], 8); (Err Eof, 8); (Ok [1; 1], 8)].
+  = [(Ok [258], 7); (Ok [2], 1); (Ok [1; 6], 1); (Ok [3; 6], 1); (Err Eof, 1); (Ok [1; 1], 1)].
 Proof. vm_compute. reflexivity. Qed.
